@@ -367,7 +367,7 @@ def map_amplification(tf, xs):
 def ivp_bound(rtol, atol, exact, k, g1max):
     """Noise-aware bound on the k-th x-derivative: local tolerance times growth and times the conditioning of the map back to x."""
     scale = 1.0 + float(np.max(np.abs(exact)))
-    return IVP_FACTOR * (rtol * scale + atol) * max(1.0, g1max) ** k
+    return IVP_FACTOR * (5.0 if rtol == IVP_TOL["BDF"][0] else 1.0) * (rtol * scale + atol) * max(1.0, g1max) ** k
 
 
 def ivp_case(col, seed, order, tname, method, variant):
@@ -408,12 +408,9 @@ def ivp_case(col, seed, order, tname, method, variant):
     inp = {"kind": "ivp", "seed": int(seed), "order": order, "transform": tname, "method": method, "variant": variant,
            "x_span": [x0, x1], "y0": y0, "problem": prob.describe()}
     cid = f"solve_ode_ivp:solution:order{order}:{tname or 'direct'}:{method}:{variant}"
-    box = {}
-
     def chk():
         sol = solve_ode_ivp(span, prob.f, prob.coeffs, y0_arg, tf, **kw) if tf is not None else solve_ode_ivp(span, prob.f, prob.coeffs, y0_arg, **kw)
         out = np.asarray(sol(xs), dtype=float)
-        box["out"] = out
         if not np.array_equal(xs, xs_keep):
             return False, "the evaluation points were modified by the returned callable"
         if list(np.asarray(y0_arg, dtype=float)) != y0:
@@ -435,7 +432,6 @@ def ivp_case(col, seed, order, tname, method, variant):
                                f"(error {err:.3g} > {bound:.3g})")
         return True, None
     col.check(cid, limited(chk), inputs=inp, sample={"order": order, "transform": tname, "method": method, "variant": variant, "x_span": [x0, x1]})
-    return prob, tf, xs, box.get("out"), (rtol, atol)
 
 
 def ivp_cross_case(col, seed, order, tname, variant="forward"):
@@ -480,7 +476,7 @@ BVP_CONDS = {1: [[(0, 0)], [(1, 0)]],
              2: [[(0, 0), (1, 0)], [(1, 0), (0, 1)], [(0, 0), (1, 1)], [(0, 1), (0, 0)], [(1, 1), (1, 0)]],
              3: [[(0, 0), (0, 1), (1, 0)], [(1, 1), (0, 0), (1, 0)], [(0, 0), (0, 2), (1, 0)], [(0, 2), (0, 1), (0, 0)],
                  [(1, 0), (1, 2), (0, 0)], [(0, 0), (1, 1), (1, 2)], [(1, 0), (1, 1), (1, 2)]]}
-BVP_FACTOR = 50.0
+BVP_FACTOR = 200.0
 
 
 def bvp_case(col, seed, order, tname, cond_index, variant="derivs"):
@@ -588,16 +584,21 @@ def validation_contracts(col, seed):
             return f"{what}: raised {type(e).__name__} instead of {exc.__name__}"
         return f"{what}: accepted"
 
+    lin = rt.LinearFiniteRTransform(0.5, 3.0)       # linear: leaving its domain [-1, 1] is numerically harmless, only the documented check can object
+
     def ivp_args():
         y3 = [float(v) for v in prob3.jets(-0.5)]
         y4 = [float(v) for v in prob4.jets(-0.5)]
         for msg in (expect(ValueError, lambda: solve_ode_ivp((-0.5, 0.5), prob3.f, prob3.coeffs, y3[:2]), "two initial values for order 3"),
-                    expect(ValueError, lambda: solve_ode_ivp((-0.5, 0.5), prob3.f, prob3.coeffs, y3 + [0.0], becke), "four initial values for order 3"),
+                    expect(ValueError, lambda: solve_ode_ivp((-0.5, 0.5), prob3.f, prob3.coeffs, y3 + [0.0]), "four initial values for order 3"),
+                    expect(ValueError, lambda: solve_ode_ivp((-0.5, 0.5), prob3.f, prob3.coeffs, y3[:2], becke), "two initial values for order 3 (transform)"),
+                    expect(ValueError, lambda: solve_ode_ivp((-0.5, 0.5), prob3.f, prob3.coeffs, y3 + [0.0], becke), "four initial values for order 3 (transform)"),
                     expect(NotImplementedError, lambda: solve_ode_ivp((-0.5, 0.5), prob4.f, prob4.coeffs, y4, becke), "order 4 with a transform"),
-                    expect(ValueError, lambda: solve_ode_ivp((-1.2, 0.5), prob3.f, prob3.coeffs, y3, becke), "x_span starting below the transform's domain"),
-                    expect(ValueError, lambda: solve_ode_ivp((0.5, -1.0000001), prob3.f, prob3.coeffs, y3, becke), "backward x_span ending below the domain"),
-                    expect(ValueError, lambda: solve_ode_ivp((-0.5, 1.0000001), prob3.f, prob3.coeffs, y3, becke), "x_span ending above the transform's domain"),
-                    expect(ValueError, lambda: solve_ode_ivp((1.5, 0.5), prob3.f, prob3.coeffs, y3, becke), "backward x_span starting above the domain")):
+                    expect(ValueError, lambda: solve_ode_ivp((-1.2, 0.5), prob3.f, prob3.coeffs, y3, lin), "x_span starting below the transform's domain"),
+                    expect(ValueError, lambda: solve_ode_ivp((0.5, -1.01), prob3.f, prob3.coeffs, y3, lin), "backward x_span ending below the domain"),
+                    expect(ValueError, lambda: solve_ode_ivp((-0.5, 1.01), prob3.f, prob3.coeffs, y3, lin), "x_span ending above the transform's domain"),
+                    expect(ValueError, lambda: solve_ode_ivp((1.3, 0.5), prob3.f, prob3.coeffs, y3, lin), "backward x_span starting above the domain"),
+                    expect(ValueError, lambda: solve_ode_ivp((-1.2, 0.5), prob3.f, prob3.coeffs, y3, becke), "x_span starting below the domain (Becke)")):
             if msg:
                 return False, msg
         return True, None
@@ -605,8 +606,11 @@ def validation_contracts(col, seed):
 
     def bvp_args():
         x = np.linspace(-0.5, 0.5, 11)
-        for msg in (expect(ValueError, lambda: solve_ode_bvp(x, prob3.f, prob3.coeffs, [(0, 0, 1.0), (1, 0, 1.0)]), "two conditions for order 3"),
-                    expect(ValueError, lambda: solve_ode_bvp(x, prob3.f, prob3.coeffs, [(0, 0, 1.0)] * 4, becke), "four conditions for order 3"),
+        three = [(0, 0, 1.0), (0, 1, 0.5), (1, 0, 1.0)]
+        for msg in (expect(ValueError, lambda: solve_ode_bvp(x, prob3.f, prob3.coeffs, three[:2], initial_guess_y=np.zeros((3, 11))), "two conditions for order 3"),
+                    expect(ValueError, lambda: solve_ode_bvp(x, prob3.f, prob3.coeffs, three + [(1, 1, 0.0)], initial_guess_y=np.zeros((3, 11))), "four conditions for order 3"),
+                    expect(ValueError, lambda: solve_ode_bvp(x, prob3.f, prob3.coeffs, three[:2], becke), "two conditions for order 3 (transform)"),
+                    expect(ValueError, lambda: solve_ode_bvp(x, prob3.f, prob3.coeffs, three + [(1, 1, 0.0)], becke), "four conditions for order 3 (transform)"),
                     expect(NotImplementedError, lambda: solve_ode_bvp(x, prob4.f, prob4.coeffs, [(0, k, 0.0) for k in range(4)], becke), "order 4 with a transform")):
             if msg:
                 return False, msg
@@ -740,13 +744,14 @@ def helper_contracts(col, seed, reps):
                     yy = g.normal(size=(K, m))
                     bb = g.normal(size=(K + 1, m))
                     bb[-1] = np.where(np.abs(bb[-1]) < 0.2, 0.7, bb[-1]) * float(g.choice([-1, 1]))
+                    bb[-1, 0] *= 10.0 ** float(g.uniform(-9, -4))       # tiny but non-zero leading coefficient (e.g. a_K g'^K for a flat map)
                     ff = g.normal(size=m)
                     yk, bk, fk = yy.copy(), bb.copy(), ff.copy()
                     got = np.asarray(rearr(yy, bb, ff), dtype=float)
                     if got.shape != (m,):
                         return False, f"shape {got.shape}, expected {(m,)}"
                     for i in range(m):
-                        want = (ff[i] - math.fsum(bk[k, i] * yk[k, i] for k in range(K))) / bk[K, i]
+                        want = (fk[i] - math.fsum(bk[k, i] * yk[k, i] for k in range(K))) / bk[K, i]
                         if not abs(got[i] - want) <= 1e-12 * (1 + abs(want)):
                             return False, f"point {i}: {got[i]!r}, (f - sum_(k<K) b_k y_k)/b_K = {want!r}"
                     if not (np.array_equal(yy, yk) and np.array_equal(bb, bk)):
@@ -979,12 +984,14 @@ def replay(req):
     seed = int(req.get("seed", 0) or 0)
     col = Collector("replay")
     prefer = next((h for h in HELPER_NAMES + ("solve_ode_ivp", "solve_ode_bvp") if h in name), None)
+    what = str((req.get("spec") or {}).get("what") or "")
     helper_contracts(col, seed, reps=3)
     validation_contracts(col, seed)
     new = lambda: [f for f in col.failures if ":known-" not in f["case_id"]]
-    if not new() and (prefer is None or not prefer.startswith("_")):
+    helpers_only = what in ("coeffs", "explicit", "matrix", "solution") or (not what and prefer is not None and prefer.startswith("_"))
+    if not new() and not helpers_only:
         low = name.lower()
-        only = "bvp" if ("bvp" in low or "/bc" in low) else ("ivp" if "ivp" in low else None)
+        only = "bvp" if ("bvp" in low or "/bc" in low) else ("ivp" if ("ivp" in low or what == "ivp") else None)
         rhs_alias_contracts(col, seed)
         public_family(col, seed, "quick", only=only)
     f = _first_failure(col, prefer)
